@@ -70,7 +70,9 @@ impl<'a> IntersectionParams<'a> {
     /// Check whether two almost-colinear lines are intersecting in the wrong place due to numerical
     /// inaccuracies.
     pub fn nearly_colinear_has_error(&self) -> bool {
-        self.denominator.pow(2) < self.line1.delta().dot_product(self.line2.delta()).abs()
+        // The square of the denominator exceeds the `i32` range for long lines.
+        i64::from(self.denominator).pow(2)
+            < i64::from(self.line1.delta().dot_product(self.line2.delta()).abs())
     }
 
     /// Compute the intersection point.
@@ -96,24 +98,28 @@ impl<'a> IntersectionParams<'a> {
 
         // If we got here, line segments intersect. Compute intersection point using method similar
         // to that described here: http://paulbourke.net/geometry/pointlineplane/#i2l
-        let origin_distances = Point::new(line1.origin_distance, line2.origin_distance);
-
-        let x_numerator =
-            origin_distances.determinant(Point::new(line1.normal_vector.y, line2.normal_vector.y));
-        let y_numerator =
-            Point::new(line1.normal_vector.x, line2.normal_vector.x).determinant(origin_distances);
+        // 64 bit integers are used because the numerators exceed the `i32` range for long lines.
+        let x_numerator = i64::from(line1.origin_distance) * i64::from(line2.normal_vector.y)
+            - i64::from(line2.origin_distance) * i64::from(line1.normal_vector.y);
+        let y_numerator = i64::from(line1.normal_vector.x) * i64::from(line2.origin_distance)
+            - i64::from(line2.normal_vector.x) * i64::from(line1.origin_distance);
 
         // Round to the nearest integer with ties always rounded up, independent of the sign of
         // the coordinate. This makes the result independent of the position of the lines, i.e.
         // translating both lines translates the intersection point by the same amount.
-        let round_div = |numerator: i32| {
+        let round_div = |numerator: i64| {
+            let denominator = i64::from(denominator);
             let (numerator, denominator) = if denominator < 0 {
                 (-numerator, -denominator)
             } else {
                 (numerator, denominator)
             };
 
-            (numerator + denominator / 2).div_euclid(denominator)
+            (numerator + denominator / 2)
+                .div_euclid(denominator)
+                // Limit far away intersections of nearly parallel lines to a range in which
+                // differences between points can still be represented.
+                .clamp(i64::from(i32::MIN / 2), i64::from(i32::MAX / 2)) as i32
         };
 
         Intersection::Point {
